@@ -93,8 +93,8 @@ CHECK_DEADLOCK FALSE
 
 def _variant(i):
     """which concretisation case number i gets (deterministic)"""
-    kinds = ('vars', 'vars', 'vars', 'ssi', 'vars', 'lit', 'vars', 'vars')
-    return kinds[i % 8], ('tuple' if i % 5 == 3 else 'list'), (i % 2 == 1)
+    kinds = ('vars', 'vars', 'rev', 'ssi', 'vars', 'lit', 'vars', 'revx', 'vars', 'rv0', 'vars')
+    return kinds[i % 11], ('tuple' if i % 5 == 3 else 'list'), (i % 2 == 1)
 
 
 def replay_case(item):
@@ -404,7 +404,7 @@ def main(tier):
            'clauses': ['Renders', 'InRange', 'Ends', 'Explicit', 'NextIff', 'PrevIff', 'NextStart',
                        'PrevEnd', 'Flags', 'Tiles', 'Back', 'NextBatches', 'PreviousBatches']}
     return V.finish(cov, assumptions=[
-        'parameters are ints or numeric strings; sequences are lists/tuples of ints',
+        'parameters are ints or numeric strings; sequences are lists/tuples of ints; some renderings carry reverse / reverse_expr / an empty sort_expr (the window arithmetic is the same)',
         'announced neighbours are specified modulo clamping into 1..L (DESIGN C11)'])
 
 
